@@ -140,7 +140,7 @@ def run(ctx):
         'evaluations': len(impl),
         'distinct_nontrivial': len(set(l.split(' ', 2)[2] for l in lines[:n_valid])),
         'rule': 'reference-encoded values: every prefix length 0..=32 / 0..=128 with boundary bit patterns for the prefix, MPLS and '
-                'MPLS-VPN families (label depth 1..=8 / 1..=7 and the two compatibility labels), route targets of 0/4/12 and odd '
+                'MPLS-VPN families (label depth 1..=10 / 1..=7 - the most the length octet can describe - and the two compatibility labels), route targets of 0/4/12 and odd '
                 'lengths, FlowSpec bodies around 239/240 and 4094/4095, EVPN bodies 0..=255, VPLS fields, with 5 path-id settings; '
                 'concatenations of 1..=50; malformed = truncations, bit flips, byte edits, random octets. non-trivial = '
                 'well-formed single values; distinct = distinct (family, addpath, octets)',
